@@ -33,6 +33,11 @@ def make_path(rng):
     retracted = False
     for _ in range(rng.randint(12, 30)):
         roll = rng.random()
+        if roll < 0.06 and steps:
+            # a move to where the tool already is (zero-length in the relative encoding),
+            # extruding in place when the file is not retracted
+            steps.append(("move", "XY", dict(pos), STEP if not retracted else 0))
+            continue
         if roll < 0.7:
             for _ in range(50):
                 want_in = rng.random() < 0.45
@@ -44,6 +49,9 @@ def make_path(rng):
                 else:
                     tx = rng.randint(0, 78) * STEP
                     ty = rng.randint(0, 78) * STEP
+                    if rng.random() < 0.12:
+                        # coordinates that are exactly zero
+                        tx, ty = rng.choice([(0, ty), (tx, 0), (0, 0)])
                 axes = rng.choice(["XY", "XY", "XY", "X", "Y", "XYZ", "Z", "XZ"])
                 new = dict(pos)
                 if "X" in axes:
@@ -141,6 +149,11 @@ def build_case(seed):
     shift = (0, 0)
     if variant == "translate":
         shift = (rng.randint(1, 10) * STEP, rng.randint(1, 10) * STEP)
+        dests = [s[2] for s in steps if s[0] == "move"]
+        if dests and rng.random() < 0.4:
+            # translate one destination of the path onto the origin
+            dest = rng.choice(dests)
+            shift = (-dest["X"], -dest["Y"])
     erel = rng.random() < 0.35
     base, ia = encode(regions, steps, "base", -1, rng, erel=erel)
     var, ib = encode(regions, steps, variant, at, rng, shift, erel=erel)
